@@ -179,3 +179,10 @@ Proof. exact decode_encode_ack. Qed.
     codec suites of the check, not proved). *)
 Theorem C09_H3_jprint : forall l, exists r, jprint (JArr l) = 91%N :: r.
 Proof. exact jprint_arr_head. Qed.
+
+(** H1 for the instance: every JSON value of the fragment (null, booleans, integers of any size
+    and sign, strings over arbitrary bytes with every escape class jprint emits - quote, backslash,
+    \b \f \n \r \t, \u00XX for the other control bytes and for the HTML characters, U+2028 / U+2029 -
+    arrays and objects of any depth and width) printed by [jprint] is read back by [jparse]. *)
+Theorem C09_H1_jprint : forall v, jparse (jprint v) = Some v.
+Proof. exact jparse_jprint. Qed.
